@@ -291,9 +291,9 @@ def apply_worker(part, cells, codes):
                 part.dev("apply3_abs", d3)
                 if a3.shape != (len(frac), 3) or d3 > 1e-12:
                     part.fail("apply3:%d" % code, "apply on (N,3) of %s deviates %g from the exact image" % (symm.canonical_string(op), d3), case)
-                if a4.shape[0] != len(frac) or np.abs(a4[:, :3] - want).max() > 1e-12 or (a4.shape[1] == 4 and np.abs(a4[:, 3] - 1).max() > 0):
+                if a4.shape[0] != len(frac) or not (np.abs(a4[:, :3] - want).max() <= 1e-12) or (a4.shape[1] == 4 and not (np.abs(a4[:, 3] - 1).max() <= 0)):
                     part.fail("apply4:%d" % code, "apply on homogeneous (N,4) of %s disagrees with (N,3)" % symm.canonical_string(op), case)
-                if np.abs(a5 - a3).max() > 0:
+                if not (np.abs(a5 - a3).max() <= 0):
                     part.fail("call:%d" % code, "__call__ differs from apply", case)
                 got = cart @ Rc + tc
                 dc = np.abs(got - want @ M).max() / scale
